@@ -56,6 +56,28 @@ def _lower_names(res):
     return re.sub(r"(E \w+ )([0-9a-f]+) ", low, res)
 
 
+def equal(g, m, attrs):
+    """same tree; every outcome equal to the model's or one of the admissible alternatives the model
+    lists for that evaluation (alt=<index>:<outcome>~<outcome>;… — an error about ANY offending operand)"""
+    if g == m:
+        return True
+    alt = attrs.get("alt")
+    if not alt or " " not in g or " " not in m:
+        return False
+    gt, go = g.split(" ", 1)
+    mt, mo = m.split(" ", 1)
+    if gt != mt:
+        return False
+    gos, mos = go.split("|"), mo.split("|")
+    if len(gos) != len(mos):
+        return False
+    alts = {}
+    for part in alt.split(";"):
+        i, _, rest = part.partition(":")
+        alts[int(i)] = rest.split("~")
+    return all(x == y or x in alts.get(i, ()) for i, (x, y) in enumerate(zip(gos, mos)))
+
+
 def post(ctx, cases, gores, model):
     # layout / keyword-spelling variants against their single-blank writing: the REAL code alone must
     # give the same tree and outcome for every member of a group (independent of model and of both lexers)
@@ -117,6 +139,7 @@ SPEC = dict(
     extract=extract,
     search=search,
     post=post,
+    equal=equal,
     rule=("cases = one-expression programs (some `r := <expr>`): every binary operator on every pair of literal kinds "
           "{num,str,bool,null,list} x several values, every prefix operator on every operand of the universe, all 19x19 operator "
           "pairs x {no brackets, left, right} x operand triples over {num,str,bool,null,var,list}, all 3x19 prefix/binary forms, "
@@ -151,7 +174,17 @@ SPEC = dict(
     ],
     assumptions=["no function calls, accesses or nested assignments inside the expression (evaluation has no side effects); an "
                  "assignment elsewhere than `name := <expr>` as the whole program: only the tree is compared",
-                 "string literals contain no {{ }} (interpolation is C14)"],
+                 "string literals contain no {{ }} (interpolation is C14)",
+                 "the tree is validated (Runtime.Validate) before it is evaluated, as the harness and every caller in the "
+                 "repository do: a number literal's value is set in Validate (Eval alone would yield 0)",
+                 "all cases of a shard run in one process with one shared ECALRuntimeProvider",
+                 "declared reading: list elements without commas between them (`[1 2]`, `[a -b]` = one element) are accepted by "
+                 "the parser but not documented; the grammar clause is read over comma-separated lists, the converse theorem "
+                 "covers the comma-less forms (PrintsW), which are ambiguous as writings",
+                 "every TESTED claim (float carrier, like, text forms of values) holds for the generator's operand universe: about "
+                 "45 number texts, 55 string literals (line ends, escapes, UTF-8 included), lists up to 40 elements, plus the "
+                 "metamorphic numeric families (x, x +- 1 ulp, x +- 1e-12, quotients around integers, fractional / negative % "
+                 "operands) and the environments of the multi-evaluation cases"],
     decode=decode,
 )
 
@@ -160,12 +193,12 @@ META = dict(
                "parser.go) and of the operator runtimes + differential correspondence on Runtime.Eval"),
     level_text=("Proof (precedence): for every expression tree of any depth the Pratt loop with the real binding table parses every "
                 "admissible writing of the tree (minimal brackets per the documented grammar, arbitrary redundant ones, the tokens on "
-                "any LINES) back to that tree, and conversely everything it accepts is such a writing of the tree it returns (list "
-                "elements may lack commas); the grammar is unambiguous; fuel never runs out; table facts re-proved by decide on every "
+                "any LINES) back to that tree, and conversely — for token lists of the fragment's alphabet — everything it accepts is such a writing of the tree it "
+                "returns (list elements may lack commas; those writings are not unique); the comma-separated grammar is unambiguous; fuel never runs out; table facts re-proved by decide on every "
                 "run. Proof (semantics): interpreter-style evaluation (helpers, evaluation order, text fallback of comparisons) = "
                 "per-operator reference semantics up to two known findings, for all trees / environments / numeric carriers; wrong-"
                 "kind operands are errors naming the operand; for exact rational arithmetic `//` is the floor of the quotient and `%` "
-                "the truncated remainder. Tested, not proved: the model against the code (~62k quick / ~600k thorough evaluations), "
+                "the truncated remainder. Tested, not proved: the model against the code (measured: ~65k quick / ~750k thorough evaluations, see evaluations), "
                 "IEEE behaviour of the float carrier, whitespace / keyword case / number splitting (Lean lexer model on the model "
                 "side, intended tokens, layout variants against their plain writing on the real code alone)."),
     level_note=("Trusted: Lean kernel + propext/Classical.choice/Quot.sound; the harness and go/ast extractor; the hand-written model "
